@@ -12,8 +12,8 @@ TagsRS == {"returns", "since"}
 TagsR == {"returns"}
 NoFaults == {}
 AllFaults == {"unbal", "dbl", "empty", "stray", "kv", "unknown", "nocolon", "dupparam", "duptag", "returns2",
-              "paramlate", "pre", "codebefore", "codeafter", "oneline", "noident", "attrs", "opentext", "depann", "deptag"}
-ParenFaults == {"unbal", "dbl", "empty", "stray"}
+              "paramlate", "pre", "codebefore", "codeafter", "oneline", "noident", "attrs", "opentext", "depann", "deptag", "dupparen"}
+ParenFaults == {"unbal", "dbl", "empty", "stray", "dupparen"}
 KnownNone == {}
 KnownWPos == {"witness_validate_position_lost_on_continuation"}
 KnownWAction == {"witness_writer_action_identifier"}
